@@ -27,7 +27,14 @@ def run_property(prop: str, tier: str, overlay: Optional[Dict[str, str]] = None,
 def _mutant_worker(args) -> Tuple[str, bool, List[str], str]:
     prop, name, overlay, expect, baseline_keys = args
     try:
-        ctx = run_property(prop, "quick", overlay)
+        holder: list = []
+        try:
+            ctx = run_property(prop, "quick", overlay, holder)
+        except AnalysisError:
+            if holder and holder[0].findings:
+                ctx = holder[0]
+            else:
+                raise
         new = [f.key for f in ctx.findings if f.key not in baseline_keys]
         killed = any(expect in k for k in new) if expect else bool(new)
         return name, killed, new[:5], ""
@@ -77,7 +84,18 @@ def main(argv: List[str]) -> None:
     ctx: Optional[Ctx] = None
     holder: list = []
     try:
-        ctx = run_property(prop, args.tier, holder=holder)
+        late_error = None
+        try:
+            ctx = run_property(prop, args.tier, holder=holder)
+        except AnalysisError as e:
+            # a violation already established by an earlier rule stands even if a later rule fails closed
+            if holder and holder[0].findings:
+                ctx = holder[0]
+                late_error = str(e)
+                ctx.notes.append("ANALYSIS-ERROR after findings: " + late_error)
+                print(f"note: analysis stopped early ({late_error}); reporting findings established before that")
+            else:
+                raise
         extra: Dict[str, Any] = {}
         if args.tier == "thorough" and not args.replay:
             extra = selftest(prop, ctx)
